@@ -816,7 +816,9 @@ def loseInstance (fuel : Nat) (i : Nat) : M (List Nat) := do
   -- status.running_processes(): the processes known on the instance that are running on it
   let hit := ps.filter (fun p => let x := w.procs.getD p {}; (getInfo x.infos i).isSome && runningOn x i)
   let procs' := ps.map (fun p => let x := w.procs.getD p {}
-    if hit.contains p then (match invalidateIdentifier x i w.now with | .ok y => y | .err _ => x) else x)
+    -- second loop of `invalidate_failed`: every process of the instance is invalidated (a no-op unless the instance is listed), so that
+    -- a copy that was only STOPPING there does not stay listed; only the `hit` ones can be failures
+    if (getInfo x.infos i).isSome then (match invalidateIdentifier x i w.now with | .ok y => y | .err _ => x) else x)
   let failed := hit.filter (fun p => (procs'.getD p {}).running.isEmpty)
   set { w with procs := procs', instRunning := w.instRunning.set i false, instChecked := w.instChecked.set i false }
   let f1 ← starterInvalidation fuel [i] failed
@@ -831,7 +833,7 @@ def loseInstances (fuel : Nat) (is : List Nat) : M (List Nat) := do
     let ps := List.range w.procs.length
     let hit := ps.filter (fun p => let x := w.procs.getD p {}; (getInfo x.infos i).isSome && runningOn x i)
     let procs' := ps.map (fun p => let x := w.procs.getD p {}
-      if hit.contains p then (match invalidateIdentifier x i w.now with | .ok y => y | .err _ => x) else x)
+      if (getInfo x.infos i).isSome then (match invalidateIdentifier x i w.now with | .ok y => y | .err _ => x) else x)
     failed := failed ++ (hit.filter (fun p => (procs'.getD p {}).running.isEmpty && !failed.contains p))
     set { w with procs := procs', instRunning := w.instRunning.set i false, instChecked := w.instChecked.set i false }
   let f1 ← starterInvalidation fuel is failed
